@@ -1,6 +1,6 @@
 """Per-property registration data for MANIFEST.json (edited by hand)."""
 
-FIX_COMMITS = ['ae949d4', 'a7cfa4b', '07ea7f8', 'a376616', 'dc7ab2b', 'd6f70b0', '0b33ab6', 'e75fe18', 'e9d82f2']
+FIX_COMMITS = ['6ee40fa', 'ae949d4', 'a7cfa4b', '07ea7f8', 'a376616', 'dc7ab2b', 'd6f70b0', '0b33ab6', 'e75fe18', 'e9d82f2']
 
 NOTES = ('All checks are bounded symbolic model checking of the real code (go/ssa of /repo working tree, regenerated on every run). '
          'Exit 0 = every obligation within the registered bounds was discharged or is listed as inconclusive in evidence; '
